@@ -127,6 +127,95 @@ def run_case(case):
     return {"cnt": cnt, "viol": viol}
 
 
+def partial_case(job):
+    """random-size list of objects whose solved size may be smaller than the number of populated elements:
+    post_randomize runs on the same objects as pre_randomize (each once), and certainly on every exposed element"""
+    npop, sizes, call = job
+    cnt = {"executions": 0, "transitions": 0, "states": 0, "nontrivial": 1}
+    viol = []
+    Leaf, Mid, Top = OT.mk_classes({"kind": "leaf", "m1": True, "m2": True})
+
+    @vsc.randobj
+    class Holder(object):
+        def __init__(self):
+            self.a = vsc.rand_bit_t(2)
+            self.l = vsc.randsz_list_t(Leaf())
+            for _ in range(npop):
+                self.l.append(Leaf())
+
+        @vsc.constraint
+        def cs(self):
+            self.l.size.inside(vsc.rangelist(*sizes))
+
+        def pre_randomize(self):
+            OT._log(self, "pre")
+
+        def post_randomize(self):
+            OT._log(self, "post")
+
+    def run(s):
+        OT.ROOT["top"] = None
+        h = Holder()
+        h._tag = "top"
+        elems = [h.l[i] for i in range(npop)]
+        for i, e in enumerate(elems):
+            e._tag = "l[%d]" % i
+        del OT.LOG[:]
+        rs = SRandState(s)
+        if call == "randomize":
+            h.set_randstate(rs)
+            out = common.outcome(h.randomize)
+        elif call == "randomize_with":
+            h.set_randstate(rs)
+
+            def f():
+                with h.randomize_with() as it:
+                    it.a != 3
+            out = common.outcome(f)
+        else:
+            out = common.outcome(lambda: vsc.randomize(h, randstate=rs))
+        log = [(p, ph) for p, ph, _ in OT.LOG]
+        del OT.LOG[:]
+        return out, log, len(h.l), int(h.l.size)
+    st = {}
+    seen = set()
+    for x in explore(run, bound=1, cap=3000, state=st):
+        out, log, ln, sz = x.obs
+        cnt["executions"] += 1
+        cnt["transitions"] += len(x.trace) + 1
+        seen.add((sz, tuple(log)))
+        if out[0] != "ok":
+            viol.append({"subcheck": "unexpected_exception", "case": {"partial": list(job), "choices": x.choices}, "observed": list(out),
+                         "expected": "returns", "what": "random-size object list %r: call ended with %r" % (job, out)})
+            continue
+        got = {}
+        for p, ph in log:
+            got[(p, ph)] = got.get((p, ph), 0) + 1
+        for i in range(npop):
+            p = "l[%d]" % i
+            pre, post = got.get((p, "pre"), 0), got.get((p, "post"), 0)
+            need = 1 if i < sz else None
+            if pre != post or pre > 1 or (need is not None and pre != need):
+                if len(viol) < 5:
+                    viol.append({"subcheck": "callback_count", "case": {"partial": list(job), "choices": x.choices},
+                                 "observed": {"object": p, "pre": pre, "post": post, "size": sz}, "expected": "pre == post == 1 on exposed elements; pre == post elsewhere",
+                                 "what": "random-size list of %d objects, sizes %r, call %s: solved size %d, element %s got pre_randomize x%d and "
+                                         "post_randomize x%d" % (npop, sizes, call, sz, p, pre, post)})
+        if got.get(("top", "pre"), 0) != 1 or got.get(("top", "post"), 0) != 1:
+            viol.append({"subcheck": "callback_count", "case": {"partial": list(job), "choices": x.choices}, "observed": got.get(("top", "pre"), 0),
+                         "expected": 1, "what": "holder callbacks ran %r" % ([got.get(("top", k), 0) for k in ("pre", "post")],)})
+    cnt["states"] = len(seen)
+    return {"cnt": cnt, "viol": viol[:5]}
+
+
+def partial_jobs(tier):
+    jobs = []
+    for npop, sizes in [(2, [(1, 2)]), (3, [(1, 2)]), (3, [(0, 3)]), (2, [1]), (3, [(2, 3)])]:
+        for call in CALLS:
+            jobs.append((npop, sizes, call))
+    return jobs
+
+
 def cases_for(tier):
     cases = []
     for spec in OT.all_specs(tier):
@@ -162,6 +251,19 @@ def run(res, only=None):
         for v in r["viol"]:
             v["finding"] = classify(v)
             res.violation(v)
+    pj = common.rotate(partial_jobs(res.tier), res.seed)
+    pout = common.pmap(partial_case, pj, chunk=1)
+    for c, r in common.good(pj, pout, res):
+        cnt = r["cnt"]
+        res.add("traces_validated_against_impl", cnt["executions"])
+        res.add("transitions", cnt["transitions"])
+        res.add("states", cnt["states"])
+        res.add("evaluations", cnt["executions"])
+        nontriv += cnt["nontrivial"]
+        res.subcount("partial_lists", "cases")
+        for v in r["viol"]:
+            v["finding"] = classify(v)
+            res.violation(v)
     res.cov["distinct_nontrivial"] = nontriv
     res.cov["rule"] = ("one case = (object tree, call kind, value assigned by pre_randomize); non-trivial if the tree has both "
                        "a sub-object that is random in the call and one that is not")
@@ -172,6 +274,11 @@ def run(res, only=None):
 
 def replay(rec):
     c = rec["case"]
+    if c.get("partial"):
+        j = c["partial"]
+        r = partial_case((j[0], [tuple(e) if isinstance(e, list) else e for e in j[1]], j[2]))
+        bad = [v for v in r["viol"] if v["subcheck"] == rec["subcheck"]]
+        return (not bad), (bad[0]["what"] if bad else "holds")
     spec = dict(c["spec"])
     spec["cons"] = tuple(spec.get("cons", ()))
     r = run_case({"spec": spec, "call": c["call"]})
